@@ -197,6 +197,7 @@ func cmdCheck(args []string) int {
 	nocache := fs.Bool("nocache", false, "")
 	workers := fs.Int("j", 8, "parallel obligations")
 	outDir := fs.String("out", "", "directory for evidence/ and replays/ (default /verif)")
+	writeHints := fs.Bool("write-hints", false, "update baseline/hints.json with the solver that decided each obligation")
 	fs.Parse(args)
 	if *prop == "" {
 		fmt.Fprintln(os.Stderr, "need -prop")
@@ -223,6 +224,9 @@ func cmdCheck(args []string) int {
 		return 2
 	}
 	loadS := time.Since(start).Seconds()
+	if b, err := os.ReadFile(filepath.Join(verifDir, "baseline", "hints.json")); err == nil {
+		json.Unmarshal(b, &hints)
+	}
 	frs, problems := genFor(p, *prop, *only)
 	scratch := filepath.Join(verifDir, ".cache", "scratch")
 	os.MkdirAll(scratch, 0o755)
@@ -253,11 +257,28 @@ func cmdCheck(args []string) int {
 			if w.O.Cover {
 				to = 2 * time.Second
 			}
-			w.R = Solve(w.Ctx.Query(w.O, false), to, scratch, w.O.Cover)
+			w.R = SolveHint(w.Ctx.Query(w.O, false), to, scratch, w.O.Cover, hints[w.Full])
 		}()
 	}
 	wg.Wait()
 
+	if *writeHints {
+		hf := filepath.Join(verifDir, "baseline", "hints.json")
+		all := map[string]string{}
+		if b, err := os.ReadFile(hf); err == nil {
+			json.Unmarshal(b, &all)
+		}
+		for _, w := range work {
+			if w.R.Answer == "unsat" && w.R.Solver != "z3-new" && !w.R.Cached {
+				all[w.Full] = w.R.Solver
+			} else if w.R.Answer == "unsat" && !w.R.Cached {
+				delete(all, w.Full)
+			}
+		}
+		os.MkdirAll(filepath.Dir(hf), 0o755)
+		b, _ := json.MarshalIndent(all, "", " ")
+		os.WriteFile(hf, b, 0o644)
+	}
 	findings := loadFindings(filepath.Join(verifDir, "known_findings.txt"))
 	baseline := loadBaseline(filepath.Join(verifDir, "baseline", *prop+".obligations"))
 	known := map[string]finding{}
